@@ -131,7 +131,7 @@ class Repeat(Expression):
             # Trivia is only kept if it is followed by another match.
             gen.writeln(f"if not {first}:")
             with gen.block():
-                gen.writeln(f"parse_trivia(state, {tmp_pairs})")
+                gen.writeln(f"skip_trivia(state, {tmp_pairs})")
             # Parse one item
             self.expression.generate(gen, matched_var, tmp_pairs)
 
